@@ -520,7 +520,14 @@ def pyref(name, params, args):
     if name == "prepend": return L([p[0]] + l)
     if name == "append": return L(l + [p[0]])
     if name == "pair": return L([p[0], p[1]])
-    if name == "replicate": return L([p[0]] * p[1])
+    if name in ("replicate", "replicate_flip"): return L([p[0]] * p[1])
+    if name == "splitn":
+        if p[0] == "":
+            raise Raises()
+        return L([S(w) for w in x[1].split(p[0], p[1] - 1)]) if p[1] > 0 else L([])
+    if name in ("str_repeat", "str_repeat_flip"): return S(x[1] * p[0])
+    if name == "take_n": return like(x, l[:p[0]])
+    if name == "drop_n": return like(x, l[p[0]:])
     if name == "cartesian": return L([L(t) for t in itertools.product(*[elems(a) for a in args])])
     if name == "repeat_concat": return L(l * p[0])
     if name == "power": return Q("t", [L(t) for t in itertools.product(l, repeat=p[0])])
@@ -561,9 +568,15 @@ def pyref(name, params, args):
 
 # ----------------------------------------------------------------------------- call table: name -> (param kinds, renderer)
 # param kinds: "f1" fn1 name, "f2" fn2, "v" value, "n" small nat, "s" string
-def call_src(name, p, a):
-    """Noulith expression for the call; a = variable names of the sequence arguments"""
+# a count can reach a builtin as a small or as a big-represented integer (//, ^, <<, big arithmetic give the
+# big representation even for tiny values): the result must not depend on that
+NUMFORMS = [lambda n: str(n), lambda n: f"({n} // 1)", lambda n: f"(2^64 - 2^64 + {n})", lambda n: f"({n} << 0)", lambda n: f"({n} ^ 1)"]
+
+
+def call_src(name, p, a, nf=0):
+    """Noulith expression for the call; a = variable names of the sequence arguments; nf = how counts are written"""
     x = a[0] if a else None
+    num = NUMFORMS[nf]
     f1 = lambda i=0: FN1[p[i]]
     f2 = lambda i=0: fn2_src(p[i])
     simple1 = {"map": "map", "filter": "filter", "reject": "reject", "partition": "partition", "flat_map": "flat_map",
@@ -592,20 +605,26 @@ def call_src(name, p, a):
     if name == "ziplongest_with": return "ziplongest(" + ", ".join(a) + f", {f2()})"
     if name == "fold_from": return f"{x} fold {f2()} from {src(p[1])}"
     if name == "scan_from": return f"{x} scan {f2()} from {src(p[1])}"
-    if name == "group_n": return f"{x} group {p[0]}"
-    if name == "group_strict": return f"{x} group' {p[0]}"
-    if name == "window": return f"{x} window {p[0]}"
+    if name == "group_n": return f"{x} group {num(p[0])}"
+    if name == "group_strict": return f"{x} group' {num(p[0])}"
+    if name == "window": return f"{x} window {num(p[0])}"
     if name == "concat": return f"{a[0]} ++ {a[1]}"
     if name == "prepend": return f"{src(p[0])} .+ {x}"
     if name == "append": return f"{x} +. {src(p[0])}"
     if name == "pair": return f"{src(p[0])} .. {src(p[1])}"
-    if name == "replicate": return f"{src(p[0])} .* {p[1]}"
+    if name == "replicate": return f"{src(p[0])} .* {num(p[1])}"
+    if name == "replicate_flip": return f"{num(p[1])} *. {src(p[0])}"
+    if name == "splitn": return f"{x} split {sstr(p[0])} by {num(p[1])}"
+    if name == "str_repeat": return f"{x} $* {num(p[0])}"
+    if name == "str_repeat_flip": return f"{num(p[0])} *$ {x}"
+    if name == "take_n": return f"{x} take {num(p[0])}"
+    if name == "drop_n": return f"{x} drop {num(p[0])}"
     if name == "cartesian": return " ** ".join(a)
-    if name == "repeat_concat": return f"{x} ** {p[0]}"
-    if name == "power": return f"{x} ^^ {p[0]}"
+    if name == "repeat_concat": return f"{x} ** {num(p[0])}"
+    if name == "power": return f"{x} ^^ {num(p[0])}"
     if name == "join": return f"{x} join {sstr(p[0])}"
     if name == "split": return f"{x} split {sstr(p[0])}"
-    if name == "combinations": return f"combinations({x}, {p[0]})"
+    if name == "combinations": return f"combinations({x}, {num(p[0])})"
     raise ValueError(name)
 
 
@@ -618,7 +637,9 @@ PKINDS = {
     "count_eq": ["v"], "find_eq": ["v"], "locate_eq": ["v"], "prepend": ["v"], "append": ["v"], "pair": ["v", "v"],
     "replicate": ["v", "n"], "group_n": ["n"], "group_strict": ["n"], "window": ["n"], "repeat_concat": ["n"], "power": ["n"],
     "combinations": ["n"], "join": ["s"], "split": ["s"],
+    "replicate_flip": ["v", "n"], "splitn": ["s", "n"], "str_repeat": ["n"], "str_repeat_flip": ["n"], "take_n": ["n"], "drop_n": ["n"],
 }
+MODEL_NAME = {"replicate_flip": "replicate", "str_repeat_flip": "str_repeat"}
 
 
 def ptok(kind, v):
@@ -640,16 +661,16 @@ ENUMERATORS = {"permutations", "combinations", "subsequences", "power"}
 UNDOCUMENTED = {"count_eq", "sum_f", "product_f"}
 
 
-def make_case(name, params, args, cmpmode="exact"):
-    """args: list of values (sequence arguments)"""
+def make_case(name, params, args, cmpmode="exact", nf=0):
+    """args: list of values (sequence arguments); nf: index into NUMFORMS for the counts"""
     names = ["x", "y", "z"][:len(args)]
-    call = call_src(name, params, names)
+    call = call_src(name, params, names, nf)
     if name in ENUMERATORS:
         call = f"list({call})"   # the harness forces at most 64 stream elements
     stm = "; ".join(f"{n} := {src(a)}" for n, a in zip(names, args))
     prog = (stm + "; " if stm else "") + f"r := ({call}); [r" + "".join(", " + n for n in names) + "]"
-    model = " ".join([name] + [ptok(k, v) for k, v in zip(PKINDS.get(name, []), params)] + [tok(a) for a in args])
-    return dict(fn=name, params=params, args=args, src=prog, model=model, cmp=cmpmode)
+    model = " ".join([MODEL_NAME.get(name, name)] + [ptok(k, v) for k, v in zip(PKINDS.get(name, []), params)] + [tok(a) for a in args])
+    return dict(fn=name, params=params, args=args, src=prog, model=model, cmp=cmpmode, nf=nf)
 
 
 # ----------------------------------------------------------------------------- grid
@@ -761,6 +782,31 @@ def gen_cases(ctx):
                         if name in ("min", "max", "sort") and False:
                             continue
                     cases.append(make_case(name, p, [x], mode))
+                    if PKINDS.get(name) == ["n"]:
+                        cases.append(make_case(name, p, [x], mode, nf=1 + (len(cases) // 2) % 4))
+    # ---- counts in every representation: take/drop n, split by n, string repetition, replication
+    for kind in ("l", "s", "v", "b"):
+        for x in [v for n in range(0, 4) for v in seqs_of(kind, n)[:: (1 if n < 2 else 5)]]:
+            n_ = len(x[1]) if x[0] == "S" else len(x[2])
+            for k in sorted({0, 1, 2, n_, n_ + 1}):
+                for nf in range(len(NUMFORMS)):
+                    cases.append(make_case("take_n", [k], [x], nf=nf))
+                    cases.append(make_case("drop_n", [k], [x], nf=nf))
+    for s_ in ("", "a", "a-b", "a-b-c-d", "-a--b-", "--"):
+        for sep in ("-", "--", "b"):
+            for k in (0, 1, 2, 3, 5):
+                for nf in range(len(NUMFORMS)):
+                    cases.append(make_case("splitn", [sep, k], [S(s_)], nf=nf))
+    for s_ in ("", "a", "ab", "\u00e9 "):
+        for k in (0, 1, 2, 3):
+            for nf in range(len(NUMFORMS)):
+                cases.append(make_case("str_repeat", [k], [S(s_)], nf=nf))
+                cases.append(make_case("str_repeat_flip", [k], [S(s_)], nf=nf))
+    for v in (I(7), S("a"), L([I(1), F(1)]), N):
+        for k in (0, 1, 2, 3):
+            for nf in range(len(NUMFORMS)):
+                cases.append(make_case("replicate", [v, k], [], nf=nf))
+                cases.append(make_case("replicate_flip", [v, k], [], nf=nf))
     # ---- functions without a parameter: exhaustive over 3-symbol alphabets at the longer lengths too
     paramless = [n for n in UNARY_ALL_KINDS if not PKINDS.get(n)]
     numeric = {"sum", "product", "min", "max", "sort"}
@@ -783,9 +829,11 @@ def gen_cases(ctx):
             cases.append(make_case("subsequences", [], [x]))
             for k in sorted({0, 1, 2, 3, n, n + 1}):
                 cases.append(make_case("combinations", [k], [x]))
+                cases.append(make_case("combinations", [k], [x], nf=1 + (k + n) % 4))
             for k in (0, 1, 2, 3):
                 if n ** k <= 300:
                     cases.append(make_case("power", [k], [x]))
+                    cases.append(make_case("power", [k], [x], nf=1 + (k + n) % 4))
     # ---- functions of several sequences
     def small(kind, upto=2, extra=2):
         out = []
@@ -1015,7 +1063,7 @@ def known_key(c):
 
 
 def show_case(c):
-    return {"fn": c["fn"], "params": c["params"], "args": c["args"], "cmp": c["cmp"], "src": c["src"], "model": c["model"]}
+    return {"fn": c["fn"], "params": c["params"], "args": c["args"], "cmp": c["cmp"], "nf": c.get("nf", 0), "src": c["src"], "model": c["model"]}
 
 
 def report(ctx, bad):
@@ -1059,7 +1107,7 @@ def run(ctx):
     cases = gen_cases(ctx)
     bad, stats = evaluate(ctx, cases, runner)
     report(ctx, bad)
-    nt = {c["model"] for c in cases if nontrivial(c)}
+    nt = {(c["model"], c.get("nf", 0)) for c in cases if nontrivial(c)}
     by_fn = {}
     for c in cases:
         by_fn[c["fn"]] = by_fn.get(c["fn"], 0) + 1
@@ -1082,6 +1130,7 @@ def run(ctx):
                 "numeric parameter is 0 or exceeds the length; distinct by (call, parameters, arguments)",
         "samples": [{"program": c["src"], "implementation": c["impl"], "coq_spec": c["spec"], "python_reference": c["ref"]} for c in cases[::step]][:14],
         "by_function": by_fn, "by_input_kind": by_kind, "impl_outcomes": outcomes,
+        "count_written_as": {["literal", "n // 1", "2^64 - 2^64 + n", "n << 0", "n ^ 1"][k]: sum(1 for c in cases if "n" in PKINDS.get(c["fn"], []) and c.get("nf", 0) == k) for k in range(5)},
         "aliases_reread": stats["alias_checked"], "reference_vs_spec_disagreements": stats["ref_vs_spec_disagree"],
         "undocumented_form_rejected_and_skipped": stats["undocumented_form_rejected"],
         "spec_compared": sum(1 for c in cases if c.get("spec") is not None),
@@ -1105,7 +1154,7 @@ def replay(ctx, rep):
     params = []
     for k, v in zip(PKINDS.get(c["fn"], []), c["params"]):
         params.append(val_of_json(v) if k == "v" else (tuple(v) if isinstance(v, list) else v))
-    case = make_case(c["fn"], params, args, c.get("cmp", "exact"))
+    case = make_case(c["fn"], params, args, c.get("cmp", "exact"), c.get("nf", 0))
     bad, _ = evaluate(ctx, [case], runner)
     report(ctx, bad)
     print(json.dumps({"program": case["src"], "implementation": case.get("impl"), "coq_spec": case.get("spec"),
